@@ -206,9 +206,10 @@ type Struct struct {
 }
 
 type TypeDecl struct {
-	Name string
-	Type string // printed type expression
-	Line int
+	Name  string
+	Alias bool   // type A = B: methods and fields are B's
+	Type  string // printed type expression
+	Line  int
 }
 
 type FileModel struct {
@@ -249,7 +250,7 @@ func Model(f *skel.File) *FileModel {
 			for _, sp := range x.Specs {
 				switch s := sp.(type) {
 				case *ast.TypeSpec:
-					td := &TypeDecl{Name: s.Name.Name, Type: exprString(fset, s.Type), Line: fset.Position(s.Pos()).Line}
+					td := &TypeDecl{Name: s.Name.Name, Type: exprString(fset, s.Type), Line: fset.Position(s.Pos()).Line, Alias: s.Assign.IsValid()}
 					m.Types[td.Name] = td
 					m.Decls = append(m.Decls, "type:"+td.Name)
 					if st, ok := s.Type.(*ast.StructType); ok {
@@ -309,6 +310,18 @@ func Model(f *skel.File) *FileModel {
 	}
 	sort.Strings(m.Imports)
 	return m
+}
+
+// Resolve follows alias declarations (type A = B) to the declared type that carries the methods.
+func (m *FileModel) Resolve(name string) string {
+	for i := 0; i < 8; i++ {
+		td := m.Types[name]
+		if td == nil || !td.Alias {
+			return name
+		}
+		name = td.Type
+	}
+	return name
 }
 
 // HoleOf maps placeholder text back to the hole that produced it.
